@@ -188,6 +188,8 @@ class Verdict:
         self.broken.append((what, detail))
 
     def finish(self, evidence):
+        for f in COQCHK_FAIL:
+            self.broken.append(("independent re-check (coqchk) of Props/%s.vo did not come back clean" % self.prop, f))
         os.makedirs(REPLAYS, exist_ok=True)
         os.makedirs(EVID, exist_ok=True)
         rc = 0
@@ -218,8 +220,34 @@ class Verdict:
         return rc
 
 
+COQCHK_FAIL = []
+
+
+def coqchk(prop):
+    """thorough tier: re-check Props/<prop>.vo and everything it depends on with the independent checker, on a scratch
+    copy (coqchk may touch compiled files); returns (ok, summary)"""
+    import tempfile
+    d = tempfile.mkdtemp(prefix="verif-coqchk-")
+    try:
+        shutil.copytree(COQ, os.path.join(d, "coq"))
+        rc, out = sh("timeout 3300 coqchk -silent -o -Q . PM PM.Props.%s 2>&1" % prop, cwd=os.path.join(d, "coq"), timeout=3400)
+        m = re.search(r"\* Axioms:\s*(.*?)\n\s*\n\* Constants/Inductives relying on type-in-type:\s*(.*?)\n\s*\n\* Constants/Inductives relying on unsafe \(co\)fixpoints:\s*(.*?)\n\s*\n\* Inductives whose positivity is assumed:\s*(.*?)\n", out, flags=re.S)
+        if rc != 0 or not m:
+            return False, "coqchk failed (rc %d): %s" % (rc, out[-600:])
+        fields = [x.strip() for x in m.groups()]
+        ok = all(f == "<none>" for f in fields)
+        return ok, "coqchk -silent -o PM.Props.%s: axioms %s; type-in-type %s; unsafe fixpoints %s; assumed positivity %s" % ((prop,) + tuple(fields))
+    finally:
+        shutil.rmtree(d, ignore_errors=True)
+
+
 def base_evidence(prop, tier, seed, build_res, extra_assumptions=()):
     ob, dis, report, names = prop_obligations(prop) if build_res.coq_ok else (0, 0, "coq build failed", [])
+    if tier == "thorough" and build_res.coq_ok and os.environ.get("VERIF_NO_COQCHK") != "1":
+        ok, summary = coqchk(prop)
+        report += "; " + summary
+        if not ok:
+            COQCHK_FAIL.append(summary)
     ev = {
         "property_id": prop, "tier": tier, "seed": seed, "level": "proof",
         "coverage": {
